@@ -3,7 +3,7 @@
 # Evidence files of /verif are rewritten by these runs (last seed wins); re-run seed 1 before a commit.
 OUT=$1; shift
 mkdir -p $OUT
-cd /verif
+cd "$(dirname "$0")/.."
 for s in "$@"; do
   for c in C20 C11 C19 C09 C06 C03 C08 C01 C12 C04 C15 C18 C10 C02 C13 C17 C07 C14 C05 C16; do
     VERIF_SEED=$s nice -n 5 ./check $c --tier quick > $OUT/$c.s$s.log 2>&1
